@@ -1,5 +1,6 @@
 import LinfaSpec.Proofs.IncrementalKm
 import Mathlib.Analysis.Real.Sqrt
+import Mathlib.Analysis.SpecialFunctions.Log.Basic
 
 /-!
 C15, third layer: statements over whole histories that were oracle-only so far.
@@ -466,5 +467,88 @@ theorem ftrlFitHistory_last [Transc α] (m : α) (r32 : α → α) (hp : FtrlHp 
     | nil => rfl
     | cons x xs => simp [List.getLastD]
 
+/-! ### inertia: the minimum over all assignments -/
+
+theorem sumS_le_sumS_map {β : Type} (l : List β) (f g : β → α) (h : ∀ x ∈ l, f x ≤ g x) :
+    sumS (l.map f) ≤ sumS (l.map g) := by
+  induction l with
+  | nil => simp
+  | cons x rest ih =>
+    simp only [List.map_cons, sumS_cons]
+    exact add_le_add (h x List.mem_cons_self) (ih fun y hy => h y (List.mem_cons_of_mem _ hy))
+
+/-- the inertia numerator `dists.sum()` is at most the total reduced distance of ANY assignment of the
+batch to centroids of the model -/
+theorem kmInertia_le (m : Metric) (cs : List (List α)) (obs : List (List α))
+    (a : List α → List α) (ha : ∀ x ∈ obs, a x ∈ cs) :
+    sumS (obs.map fun x => (closestBy m cs x).2) ≤ sumS (obs.map fun x => rdistBy m (a x) x) :=
+  sumS_le_sumS_map obs _ _ fun x hx => closestBy_le m cs x (a x) (ha x hx)
+
+/-! ### FTRL: the weight is the minimiser of the proximal objective -/
+
+/-- the per-coordinate FTRL-proximal objective `z·w + l1·|w| + ½·d·w²`, `d = (√n + β)/α + l2` -/
+def ftrlObjective [Transc α] (hp : FtrlHp α) (z n w : α) : α :=
+  z * w + hp.l1 * |w| + ((Transc.sqrt n + hp.beta) / hp.alpha + hp.l2) / 2 * (w * w)
+
+theorem ftrlWeight_minimises [Transc α] (hp : FtrlHp α) (z n : α) (hl1 : 0 ≤ hp.l1)
+    (hd : 0 < (Transc.sqrt n + hp.beta) / hp.alpha + hp.l2) (w : α) :
+    ftrlObjective hp z n (ftrlWeight hp z n) ≤ ftrlObjective hp z n w := by
+  set d := (Transc.sqrt n + hp.beta) / hp.alpha + hp.l2 with hdd
+  have habs1 : -|w| ≤ w := neg_abs_le w
+  have habs2 : w ≤ |w| := le_abs_self w
+  have habs0 : 0 ≤ |w| := abs_nonneg w
+  unfold ftrlObjective ftrlWeight
+  rw [← hdd]
+  by_cases hz : z < 0
+  · by_cases h1 : z * -1 ≤ hp.l1
+    · simp only [hz, if_true, h1, mul_zero, abs_zero, add_zero]
+      nlinarith [mul_self_nonneg w, mul_nonneg hl1 habs0]
+    · have h1' : hp.l1 < -z := by linarith [not_le.mp h1]
+      simp only [hz, if_true, h1, if_false]
+      set ws := (-1 * hp.l1 - z) / d with hws
+      have hwsd : ws * d = -1 * hp.l1 - z := by rw [hws]; field_simp
+      have hpos : 0 < ws := by rw [hws]; apply div_pos <;> linarith
+      rw [abs_of_pos hpos]
+      nlinarith [mul_self_nonneg (w - ws), mul_nonneg hl1 (sub_nonneg.mpr habs2), hd.le]
+  · by_cases h1 : z * 1 ≤ hp.l1
+    · simp only [hz, if_false, h1, if_true, mul_zero, abs_zero, add_zero]
+      nlinarith [mul_self_nonneg w, mul_nonneg hl1 habs0]
+    · have h1' : hp.l1 < z := by linarith [not_le.mp h1]
+      simp only [hz, if_false, h1]
+      set ws := (1 * hp.l1 - z) / d with hws
+      have hwsd : ws * d = 1 * hp.l1 - z := by rw [hws]; field_simp
+      have hneg : ws < 0 := by rw [hws]; apply div_neg_of_neg_of_pos <;> linarith
+      rw [abs_of_neg hneg]
+      nlinarith [mul_self_nonneg (w - ws), mul_nonneg hl1 (by linarith : (0:α) ≤ |w| + w), hd.le]
+
 end Field
+
+/-! ### multinomial: the stored log-frequencies are the logarithms of the smoothed frequencies (reals) -/
+
+noncomputable section Reals
+
+/-- the real instance of the "external call" primitives -/
+local instance transcReal : Transc ℝ := ⟨Real.sqrt, Real.exp, Real.log⟩
+
+theorem mnbLogProb_exp (a : ℝ) (fc : List ℝ) (hpos : ∀ x ∈ fc, 0 < x + a)
+    (j : Nat) (x : ℝ) (hj : fc[j]? = some x) :
+    ((mnbLogProb a fc).map Real.exp)[j]? = some ((x + a) / sumS (fc.map (· + a))) := by
+  have hx : x ∈ fc := List.mem_of_getElem? hj
+  have hxa : 0 < x + a := hpos x hx
+  have hsum : 0 < sumS (fc.map (· + a)) := by
+    rw [sumS_eq_sum]
+    apply List.sum_pos
+    · intro y hy
+      obtain ⟨v, hv, rfl⟩ := List.mem_map.mp hy
+      exact hpos v hv
+    · intro hnil
+      have : fc = [] := by simpa using hnil
+      rw [this] at hx; simp at hx
+  simp only [mnbLogProb, List.map_map, List.getElem?_map, hj, Option.map_some, Function.comp,
+    Option.some.injEq]
+  show Real.exp (Real.log (x + a) - Real.log (sumS (fc.map (· + a)))) = _
+  rw [Real.exp_sub, Real.exp_log hxa, Real.exp_log hsum]
+
+end Reals
+
 end LinfaSpec.Incremental
